@@ -502,3 +502,10 @@ def r7(ctx: Ctx) -> None:
         else:
             ctx.unrec(f, f.node, "every given market is handed to the strategy", "neither a loop nor a comprehension over the markets was found", short(p.exit[1])[:120])
     ctx.require(n >= 1, f"{q}: no returning path")
+
+
+@rule("C20.H3", "mechanism shared with C18: the thresholds, volumes and weights an agent acts on are the configured ones, 0 included", "T13 lint (same rule as C18.R10, agents only)", floor=3)
+def h3(ctx: Ctx) -> None:
+    from .events import check_or_defaults
+
+    check_or_defaults(ctx, "Agent", floor=3)
